@@ -6,7 +6,7 @@
      {"ev":"log","name":k,"msgs":[M,...]}      a generated log file; M = [i, rx, ts, e, a, c, mc, h]: message index, reception
                                                time (ms), timestamp (0.1 ms), ecu/apid/ctid, message counter, hash of the payload text
      {"ev":"reset","case":n,"hdr":{"logline":line of the log event,"n":N,..}}
-     {"ev":"ok_stream","id":n,"kind":"stream"|"query","filt":[[neg,e,a,c],..],"win":[a,b],"parsed":bool}   the reply announcing the id
+     {"ev":"ok_stream","id":n,"kind":"stream"|"query","filt":[[k,on,e,a,c],..],"win":[a,b],"parsed":bool}   the reply announcing the id
      {"ev":"bin_msgs","id":n,"n":k,"msgs":[M,...]}      a DltMsgs frame as received (k = 0: end marker of a query)
      {"ev":"bin_sum","id":n,"n":k,"first":i,"last":j,"inc":c}   big logs only (hdr.big = N > 0: N uniform messages, the log event
                                                carries "uniform":[e,a,c] instead of the messages): summary of a DltMsgs frame - message
@@ -50,11 +50,15 @@ Log == Rec[logline].msgs
 Min2(x, y) == IF x < y THEN x ELSE y
 Max2(x, y) == IF x > y THEN x ELSE y
 
-\* ---- filters: literal ecu / apid / ctid criteria; positive OR, negative veto (the semantics C11/C12 pin down)
+\* ---- filters: literal ecu / apid / ctid criteria; positive OR, negative veto, event AND (match_filters; the semantics
+\*      C11/C12 pin down)
 FMatches(f, m) == (f.e = "" \/ f.e = m.e) /\ (f.a = "" \/ f.a = m.a) /\ (f.c = "" \/ f.c = m.c)
-Keep(filt, m) == LET P == {k \in 1..Len(filt) : ~filt[k].neg}  Ng == {k \in 1..Len(filt) : filt[k].neg} IN
-                 /\ (P = {} \/ \E k \in P : FMatches(filt[k], m))
-                 /\ ~(\E k \in Ng : FMatches(filt[k], m))
+\* a filter: [k ("pos"|"neg"|"event"|"marker"), on (enabled), e, a, c]; marker and disabled filters never change the set
+ActiveOf(filt, k) == {j \in 1..Len(filt) : filt[j].on /\ filt[j].k = k}
+Keep(filt, m) == /\ (ActiveOf(filt, "pos") = {} \/ \E j \in ActiveOf(filt, "pos") : FMatches(filt[j], m))
+                 /\ ~(\E j \in ActiveOf(filt, "neg") : FMatches(filt[j], m))
+                 /\ (ActiveOf(filt, "event") = {} \/ \E j \in ActiveOf(filt, "event") : FMatches(filt[j], m))
+FiltersActive(filt) == (ActiveOf(filt, "pos") \cup ActiveOf(filt, "neg") \cup ActiveOf(filt, "event")) # {}
 Kept(filt) == SelectSeq([i \in 1..Len(Log) |-> i], LAMBDA i : Keep(filt, Log[i]))
 
 LogEv == /\ Ev("log") /\ phase \in {"idle", "ended", "rejected"} /\ UNCHANGED <<case, phase, logline, nbig, cur, maxId, viol, kfUsed>>
@@ -66,7 +70,7 @@ OkStream == /\ Ev("ok_stream") /\ phase = "running" /\ ~cur.live /\ Cur.id > max
             /\ LET kept == IF nbig > 0 THEN <<>> ELSE Kept(Cur.filt) IN
                cur' = [id |-> Cur.id, kind |-> Cur.kind, fl |-> kept,
                        slen |-> (IF nbig > 0 THEN (IF Keep(Cur.filt, Rec[logline].uniform) THEN nbig ELSE 0) ELSE Len(kept)),
-                       unf |-> (Len(Cur.filt) = 0),
+                       unf |-> ~FiltersActive(Cur.filt),
                        a |-> Cur.win[1], b |-> Cur.win[2], del |-> 0, live |-> TRUE, full |-> Cur.parsed]
             /\ maxId' = Cur.id /\ UNCHANGED <<case, phase, logline, nbig, viol, kfUsed>>
 
